@@ -7,7 +7,7 @@
    content (what the minimiser computes) is abstract.
 
    The model has four switches (record [variant]) for the four defects found in the pinned tree;
-   [fixed] is the code with fixes/C27-1..4.patch applied, [orig] the pinned code:
+   [fixed] is the code with fixes/C27-1..4.patch applied (= /repo HEAD since round 2), [orig] the pinned code:
 
      fix_pop     (C27-1)   if dry_run: ...; pop_sseq(); continue
                            if _handle_terminate_callback(...): pop_sseq(); break
